@@ -25,7 +25,7 @@ def floors(tier):
     k = 1 if tier == "quick" else 8
     return {"classifications": 300 * k, "classified_paged": 100 * k, "classified_plain": 100 * k, "histories": 500 * k,
             "pages_served": 1200 * k, "items_yielded": 1500 * k, "empty_intermediate_pages": 50 * k, "client:aio": 150 * k,
-            "client:rest": 100 * k, "map_histories": 10 * k, "retry_forwarded_probes": 40 * k}
+            "client:rest": 100 * k, "map_histories": 10 * k, "retry_forwarded_probes": 40 * k, "caller_request_objects_checked": 400 * k}
 
 
 def plan(seed, tier):
@@ -226,6 +226,13 @@ def judge(model, call, r, bump):
         bad("request-count", f"server saw {len(reqs)} requests for a history whose first empty token is on page {n}")
         return v
     first = model.parse(call["req_type"], rdm.unb64(call["request"]))
+    # the pager works on its own copy: the object the caller passed still holds what the caller put there (so listing again
+    # with it starts at the first page, and later edits do not leak into the running listing)
+    if r.get("request_after") is not None:
+        bump("caller_request_objects_checked")
+        if model.parse(call["req_type"], rdm.unb64(r["request_after"])) != first:
+            bad("caller-request-object-mutated", {"after": str(model.parse(call["req_type"], rdm.unb64(r["request_after"])))[:200],
+                                                  "before": str(first)[:200]})
     prev_tok = None
     for i, rq in enumerate(reqs):
         if "http" in rq:
@@ -373,6 +380,7 @@ def in_runner(script):
                     o["attr_tokens"].append(ret.next_page_token)
         except BaseException as e:  # noqa
             o["error"] = rt.exc_info(e)
+        o["request_after"] = rt.ser(req)[1]       # the caller's own request object, after the listing
         if call["kind"] == "grpc":
             o["requests"] = collect_grpc(call, mark)
             srv.script("/%s/%s" % (call["full_service"], call["rpc"]), [])
@@ -408,6 +416,7 @@ def in_runner(script):
                         o["attr_tokens"].append(ret.next_page_token)
             except BaseException as e:  # noqa
                 o["error"] = rt.exc_info(e)
+            o["request_after"] = rt.ser(req)[1]
             o["requests"] = collect_grpc(call, mark)
             srv.script("/%s/%s" % (call["full_service"], call["rpc"]), [])
             results[i] = o
